@@ -207,3 +207,7 @@ Proof.
     + destruct vvo; discriminate.
   - destruct vvo; try discriminate. destruct scaled; [| discriminate]. inversion H. auto.
 Qed.
+
+(* weight_power_scale with `divide` left out divides ("Divide (or multiply) weights by autocorrelations") *)
+Lemma default_direction_divides : weights_default_divide = true.
+Proof. reflexivity. Qed.
